@@ -8,7 +8,7 @@ COQ_HEADER = "From Plotink Require Import Base.Prelude Model.Simplify Corr.C09.\
 COQ_RUN = "run09"
 COQ_CASE_TYPE = "case09"
 SHARD = 200
-RULE = ("specks (a whole path inside a box of 0.72..1.0 tolerances per side, with hooks across the diagonal); vertex lists of 0..40 vertices on integer / half-integer / rational grids: random walks, collinear runs, repeated points, closed loops with a zero-length "
+RULE = ("near-duplicate pairs astride the edge of the tolerance band; specks (a whole path inside a box of 0.72..1.0 tolerances per side, with hooks across the diagonal); vertex lists of 0..40 vertices on integer / half-integer / rational grids: random walks, collinear runs, repeated points, closed loops with a zero-length "
         "closing segment, sharp reversals, vertices projecting before the start / past the end / exactly at an end of the chord, distance exactly equal to the tolerance; "
         "tolerances <= 0, tiny, comparable to the step, huge; the survivors are identified by object identity; the predicate is also compared with "
         "max_dist_from_n_points on floats; plus float runs of supersample on long nearly straight runs (chord 1e3..1e11 tolerances long, offsets of 0.3..40 tolerances, "
@@ -86,6 +86,19 @@ def generate(rng, tier):
             pts = [(ox + lo(), oy + lo())] + [(ox + hi(), oy + hi()) for _ in range(m - 2)] + [(ox + lo(), oy + lo())]
             if rng.random() < 0.5: pts = [(x, 2 * oy + side - y) for x, y in pts]        # the other diagonal
         cases.append({"kind": "s", "pts": pts, "tol": tol, "family": "speck/box=%d%%tol" % int(side * 100 / tol)})
+    # near-duplicate pairs: two consecutive vertices closer than a tenth of the tolerance, the first in the outer tenth of the tolerance band
+    # around the chord that would replace it, the second on or beyond the band: dropping the second "because it nearly repeats the first"
+    # and then the first against the long chord strands the second farther than the tolerance from what survives
+    for _ in range(max(20, n // 12)):
+        tol = F(rng.choice([20, 1, 2, 5]), rng.choice([1, 1, 4])); L = tol * rng.choice([5, 10, 40])
+        ox, oy = F(rng.randint(-30, 30)), F(rng.randint(-30, 30))
+        ya = tol * F(rng.choice([90, 95, 96, 99]), 100); yb = tol * F(rng.choice([100, 101, 104, 108]), 100)
+        xm = L / 2; dx = tol * F(rng.choice([0, 1, 3, 5]), 100)
+        pts = [(ox, oy), (ox + xm, oy + ya), (ox + xm + dx, oy + yb), (ox + L, oy)]
+        if rng.random() < 0.4: pts = [(ox - L, oy)] + pts
+        if rng.random() < 0.3: pts = [(x, 2 * oy - y) for x, y in pts]
+        if rng.random() < 0.3: pts = [(y, x) for x, y in pts]
+        cases.append({"kind": "s", "pts": pts, "tol": tol, "family": "near-duplicate-pair"})
     # float runs (the arithmetic of the code is the double-precision one): long, nearly straight runs with a tiny tolerance - the
     # offsets are a few tolerances, the chord 1e7..1e11 tolerances long - and ordinary drawing-sized float data; judged exactly
     import math
